@@ -518,17 +518,18 @@ class MemoizeContext(Contract):
 
 @register
 class AdjointTapeEnter(Contract):
-    """AdjointTape.__enter__: records the interpretation that was active (old top) and delegates to
+    """AdjointTape.__enter__: on EVERY entry (also a re-entry of the same tape object) records the interpretation that is active now (old top) and delegates to
     Interpretation.__enter__ exactly once, returning its result; the stack is touched only by the delegate."""
 
     props = ("C17", "C11")
     file = "funsor/adjoint.py"
     qualname = "AdjointTape.__enter__"
     total = True
-    mutants = (("does not delegate", "return super().__enter__()", "return self"), ("records after pushing", "        self._old_interpretation = interpreter.get_interpretation()\n        return super().__enter__()", "        r = super().__enter__()\n        self._old_interpretation = interpreter.get_interpretation()\n        return r"))
+    mutants = (("does not delegate", "return super().__enter__()", "return self"), ("records after pushing", "        self._old_interpretation = interpreter.get_interpretation()\n        return super().__enter__()", "        r = super().__enter__()\n        self._old_interpretation = interpreter.get_interpretation()\n        return r"), ("keeps the base recorded at the first entry", "        self._old_interpretation = interpreter.get_interpretation()", "        if self._old_interpretation is None:\n            self._old_interpretation = interpreter.get_interpretation()"))
 
     def structures(self, tier):
-        yield "-", None
+        yield "first-entry", None
+        yield "re-entry-of-the-same-tape", "stale"
 
     def build(self, p, st):
         stk = SymStack()
@@ -539,7 +540,7 @@ class AdjointTapeEnter(Contract):
 
         class Self:
             tape = ["stale"]
-            _old_interpretation = None
+            _old_interpretation = None if st is None else "interpretation-recorded-at-an-earlier-entry"
 
         rec = []
         return Ctx(args=(Self(),), namespace={"interpreter": Interp}, stk=stk, rec=rec, api=api)
